@@ -112,7 +112,7 @@ func init() {
 		Level: "fault_enumeration",
 		Rule: "every module of the corpus (atoms, repo testdata, llvm-stress programs in thorough) is written with WriteTo to a writer that fails after exactly k accepted bytes, " +
 			"for every k in [0,len] (all offsets when len<=6000, else 400 PRNG offsets plus boundaries), once with a sentinel error, once with io.ErrShortWrite, and once with a writer whose failing call accepts its whole chunk and returns (len(p), err); the corpus includes a synthetic module with a function body of more than 64 KiB; " +
-			"Real destinations: /dev/full, a pipe whose reader goes away after 0, 1 or half of the bytes, a closed file and a regular file, through an *os.File wrapper that records what the descriptor accepted and its first error: count, error identity and no write after the failure. Kind stringwriter: the failing writer also has WriteString, WriteByte and ReadFrom (as *os.File, *bufio.Writer, *bytes.Buffer have), all on the same byte budget, at every offset. Failure kinds also include the errors of real destinations at 25 offsets per module (io.ErrClosedPipe, EPIPE bare and in *os.PathError, io.EOF, os.ErrClosed, ENOSPC). First output: a second, never-printed parse of every input, and API-built modules whose numbers are still to be assigned (block addresses used from outside the function, metadata definitions with ID -1 attached to a global, a function and an instruction; never printed, or printed and then edited) are written once to a non-failing writer and to writers failing at every offset: what WriteTo wrote is what String() returns afterwards. " +
+			"Real destinations: /dev/full, a pipe whose reader goes away after 0, 1 or half of the bytes, a closed file and a regular file, through an *os.File wrapper that records what the descriptor accepted and its first error: count, error identity and no write after the failure. Kind stringwriter: the failing writer also has WriteString, WriteByte and ReadFrom (as *os.File, *bufio.Writer, *bytes.Buffer have), all on the same byte budget, at every offset. Failure kinds also include the errors of real destinations at 25 offsets per module (io.ErrClosedPipe, EPIPE bare and in *os.PathError, io.EOF, os.ErrClosed, ENOSPC, errors with Temporary()/Timeout() methods, EAGAIN, EINTR). First output: a second, never-printed parse of every input, and API-built modules whose numbers are still to be assigned (block addresses used from outside the function, metadata definitions with ID -1 attached to a global, a function and an instruction; never printed, or printed and then edited) are written once to a non-failing writer and to writers failing at every offset: what WriteTo wrote is what String() returns afterwards. " +
 			"a case is (module, k, failure kind); it is non-trivial when 0<k<len, i.e. the failure hits in the middle of the output; distinct = distinct (module digest, k, kind)",
 		Gen:           genC19,
 		MinNontrivial: 1000,
@@ -338,8 +338,14 @@ func runC19(r *fw.Rec, s corpus.Source) {
 		"eof":           io.EOF,
 		"closed":        &os.PathError{Op: "write", Path: "out.ll", Err: os.ErrClosed},
 		"enospc":        &os.PathError{Op: "write", Path: "out.ll", Err: syscall.ENOSPC},
+		// errors that call themselves temporary or a timeout (a deadline on a network
+		// connection, EAGAIN on a non-blocking descriptor): errors all the same
+		"timeout":   tempErr{"i/o timeout", true, true},
+		"temporary": tempErr{"resource temporarily unavailable", true, false},
+		"eagain":    syscall.EAGAIN,
+		"eintr":     &os.PathError{Op: "write", Path: "out.ll", Err: syscall.EINTR},
 	}
-	kinds := []string{"sentinel", "shortwrite", "fullcount", "stringwriter", "closedpipe", "epipe", "syscall-epipe", "eof", "closed", "enospc"}
+	kinds := []string{"sentinel", "shortwrite", "fullcount", "stringwriter", "closedpipe", "epipe", "syscall-epipe", "eof", "closed", "enospc", "timeout", "temporary", "eagain", "eintr"}
 	for _, kind := range kinds {
 		short := kind == "shortwrite"
 		koffs := offs
@@ -393,7 +399,7 @@ func runC19(r *fw.Rec, s corpus.Source) {
 	}
 	r.NontrivialN("c19/"+dig, nontriv*1)
 	r.Tally("modules", "checked")
-	r.TallyN("offsets", "checked", 4*len(offs)+6*min(len(offs), 25))
+	r.TallyN("offsets", "checked", 4*len(offs)+10*min(len(offs), 25))
 	if L <= 6000 {
 		r.Tally("modules", "all_offsets_enumerated")
 	}
@@ -548,3 +554,14 @@ func c19RealDestinations(r *fw.Rec) {
 		}
 	}
 }
+
+// tempErr is an error with the Temporary and Timeout methods of net.Error.
+type tempErr struct {
+	msg       string
+	temporary bool
+	timeout   bool
+}
+
+func (e tempErr) Error() string   { return e.msg }
+func (e tempErr) Temporary() bool { return e.temporary }
+func (e tempErr) Timeout() bool   { return e.timeout }
